@@ -1180,10 +1180,17 @@ static void bfs_replay_one(Run &r, Make make, const Vec &v)
 // =====================================================================================================
 // jobs
 // =====================================================================================================
+// depth per job family: the serial-stamped kind has the sharpest oracle and the smallest state space and goes deepest;
+// meta mirrors array (pointer + addref/unref) and conf multiplies the content classes, both stay one level below
 static int depth_of(Tier t, const std::string &job)
 {
-	(void) job;
-	return t == Quick ? 3 : 5;
+	bool q = t == Quick;
+	if (!job.compare(0, 10, "buf:serial")) return q ? 3 : 5;
+	if (!job.compare(0, 8, "buf:conf") || !job.compare(0, 8, "buf:meta")) return q ? 2 : 3;
+	if (!job.compare(0, 7, "buf:cmd")) return q ? 3 : 5;
+	if (!job.compare(0, 4, "buf:")) return q ? 3 : 4;
+	if (!job.compare(0, 6, "cxx:0:") || !job.compare(0, 6, "cxx:1:")) return q ? 4 : 6;
+	return q ? 3 : 5;     // reference_array / item_array
 }
 void mc_jobs(Tier t, std::vector<std::string> &jobs)
 {
@@ -1230,7 +1237,7 @@ void mc_explore(Run &r, const std::string &job)
 	int mode;
 	if (parse_cxx(job, mode, init)) {
 		CSys::build_ops(mode);
-		bfs<CSys>(r, [&]() { return new CSys(r, mode, init); }, depth_of(r.tier, job) + 1);
+		bfs<CSys>(r, [&]() { return new CSys(r, mode, init); }, depth_of(r.tier, job));
 		return;
 	}
 	r.incomplete("unknown job " + job);
